@@ -58,6 +58,8 @@ def run(cases, tag="Optc", timeout=300):
                 info["unsupported"] += 1
                 continue
             info["calls"] += 1
+            if c.get("shadowing"):
+                info["calls_with_shadowing"] = info.get("calls_with_shadowing", 0) + 1
             if c["before"] != c["after"]:
                 info["changed"] += 1
             secs_b = [it for it in c["before"] if it[0] == "ISec"]
